@@ -511,8 +511,8 @@ def anyLastSaved : List Elem → Bool
   | .sel _ _ _ cells _ _ _ :: es => wantsLastSaved cells || anyLastSaved es
   | _ :: es => anyLastSaved es
 
-/-- a group / repeat whose bind reads `${last-saved#…}`.  The code never asks sections
-    (`_generate_last_saved_instance` is called for `Question`s only, survey.py 639-651): open finding F47. -/
+/-- a group / repeat whose bind reads `${last-saved#…}` (survey.py 651-658, since commit a1c327a sections are
+    asked too) -/
 def secLastSaved : List Elem → Bool
   | [] => false
   | .sec _ cells :: es =>
@@ -529,8 +529,8 @@ def staticInsts (search : List Str) (lists : List (Str × List Choice)) : List I
   (lists.filter fun g => !search.contains g.1).map fun g => staticInst g.1 g.2
 
 /-- every `InstanceInfo`, in the order of `get_element_instances` -/
-def allInsts (es : List Elem) (lists : List (Str × List Choice)) (f47Fixed : Bool := false) : List Inst :=
-  elemInsts es ++ (if anyLastSaved es || (f47Fixed && secLastSaved es) then [lastSavedInst] else []) ++ staticInsts (searchLists es) lists
+def allInsts (es : List Elem) (lists : List (Str × List Choice)) : List Inst :=
+  elemInsts es ++ (if anyLastSaved es || secLastSaved es then [lastSavedInst] else []) ++ staticInsts (searchLists es) lists
 
 /-- `_validate_external_instances`: names of `external` instances are unique -/
 def externalNamesOk (is : List Inst) : Bool :=
@@ -678,9 +678,6 @@ structure Input where
   surveyCols : List Str := []
   extHeader : List Str
   extRows : Option (List Cells)
-  /-- model variant with finding F47 repaired (sections are asked for last-saved references too); used by the
-      check only to recognise a repaired tree, never for the oracle's verdict -/
-  f47Fixed : Bool := false
 deriving Repr, Inhabited
 
 structure Obs where
@@ -895,7 +892,7 @@ def runCore (inp : Input) : Outcome :=
   | .error w => .unsupported w
   | .ok sels =>
   if searchMixed lists es then .error .searchMixed else
-  let insts := allInsts es lists inp.f47Fixed
+  let insts := allInsts es lists
   if !externalNamesOk insts then .error .dupExternal else
   match emitInsts [] insts with
   | none => .error .idClash
